@@ -161,16 +161,21 @@ def _cname(ex, a, st, node):
     return z3.simplify(ex.as_val(a, st, node).e).as_string()
 
 
+def _same_callee(logged, nm):
+    """a logged callee is named by its full qualified name; a clause may name it fully, by `Class.method` / `module.func`, or by its last component"""
+    return logged == nm or logged.split(":")[-1] == nm or logged.endswith("." + nm)
+
+
 def s_call_count(ex, args, kwargs, st, node):
     from .sym import VInt
     nm = _cname(ex, args[0], st, node)
-    return VInt(sum(1 for c in st.log if c.name == nm))
+    return VInt(sum(1 for c in st.log if _same_callee(c.name, nm)))
 
 
 def _nth(ex, args, st, node):
     nm = _cname(ex, args[0], st, node)
     idx = z3.simplify(ex.as_val(args[1], st, node).e).as_long()
-    recs = [c for c in st.log if c.name == nm]
+    recs = [c for c in st.log if _same_callee(c.name, nm)]
     if idx >= len(recs):
         from .state import OutOfSubset
         raise OutOfSubset(f"clause refers to call #{idx} of {nm}, only {len(recs)} on this path (guard with call_count)")
